@@ -55,7 +55,7 @@ def run(ctx):
     from rules import lib_call
     funcs = sorted(p for p, bb in F.bodies.items() if p.startswith("read::") and not bb["derived"] and "::tests::" not in p)
     lib_call.check_read_exact(ctx, funcs, r"^std::io::Read$", r"^std::io::BufReader<")
-    R.floor("CALL-R", 2)
+    R.floor("CALL-R", 1)
     try:
         from rules import lib_reader
         lib_reader.check(ctx, "read")
